@@ -15,6 +15,7 @@ package dedup
 
 import (
 	"sync"
+	"sync/atomic"
 	"time"
 
 	"github.com/andres-erbsen/clock"
@@ -30,6 +31,12 @@ type TaskRunner interface {
 
 type task struct {
 	input interface{}
+
+	// refs counts the Run callers which looked the task up and have not yet
+	// returned. It is only incremented under the Limiter lock, so that the task
+	// GC, which holds the write lock, never deletes a task which a caller is
+	// about to use.
+	refs int32
 
 	cond      *sync.Cond
 	running   bool
@@ -76,6 +83,9 @@ func (l *Limiter) Run(input interface{}) interface{} {
 
 	l.RLock()
 	t, ok := l.tasks[input]
+	if ok {
+		atomic.AddInt32(&t.refs, 1)
+	}
 	l.RUnlock()
 	if !ok {
 		// Slow path, must initialize task struct under global write lock.
@@ -85,8 +95,10 @@ func (l *Limiter) Run(input interface{}) interface{} {
 			t = newTask(input)
 			l.tasks[input] = t
 		}
+		atomic.AddInt32(&t.refs, 1)
 		l.Unlock()
 	}
+	defer atomic.AddInt32(&t.refs, -1)
 	verifYield("limiter.afterLookup", input)
 	return l.getOutput(t)
 }
@@ -131,7 +143,8 @@ func (gc *limiterTaskGC) Run() {
 
 	for input, t := range gc.limiter.tasks {
 		t.cond.L.Lock()
-		expired := t.expired(gc.limiter.clk.Now()) && !t.running
+		expired := t.expired(gc.limiter.clk.Now()) && !t.running &&
+			atomic.LoadInt32(&t.refs) == 0
 		t.cond.L.Unlock()
 		if expired {
 			delete(gc.limiter.tasks, input)
